@@ -399,7 +399,9 @@ def rule_structural_discharges(ctx):
         p = printers.evaluate(fx, b)
         w = [o for o in p.out if o[2][0] == "write" and "Option::unwrap" in repr(o[2][2])]
         ok = len(w) == 1 and w[0][0] and w[0][0][0] == (("op", "Not", ("call", "Vec::is_empty", (("place", "self.0.terms"),))), True)
-        ctx.add("PANIC-DOM", "printer-first-term:" + which, ok, ctx.site(b), "iter.next().unwrap() happens only under !terms.is_empty()")
+        if not w and not [n for n in walk(b["body"]) if n.get("k") == "MethodCall" and n.get("method") in ("unwrap", "expect")]:
+            ok = True      # no unwrap left to guard (the first term is taken apart without one, e.g. `split_first`)
+        ctx.add("PANIC-DOM", "printer-first-term:" + which, ok, ctx.site(b), "iter.next().unwrap() happens only under !terms.is_empty() (or there is no unwrap at all)")
     # PREC: atomic precedence differs from every operator precedence (fol default formatter)
     from .. import prec
     m = prec.Model(fx, "fol", "Formula")
